@@ -2,15 +2,16 @@
 # tools/run_seeded.sh [tier] : apply every seeded change in seeded/*/patch.diff to /repo in turn, run the check of the
 # property it breaks, undo it, and write seeded/RESULTS.md (which checks catch which changes).
 set -u
+REPO="${VERIF_REPO:-/repo}"
 cd "$(dirname "$0")/.."
 TIER="${1:-quick}"
 OUT=seeded/RESULTS.md
-git -C /repo diff --quiet || { echo "/repo is dirty"; exit 2; }
+git -C "$REPO" diff --quiet || { echo "/repo is dirty"; exit 2; }
 {
 echo "# Seeded changes versus the checks ($TIER tier, VERIF_SEED=${VERIF_SEED:-1})"
 echo
 echo "Each change was written by an independent sub-agent that saw only the property text and a scratch worktree of /repo."
-echo "Applied with \`git -C /repo apply\`, checked with \`./check <property> $TIER\`, undone with \`git -C /repo checkout -- .\`."
+echo "Applied with \`git -C "$REPO" apply\`, checked with \`./check <property> $TIER\`, undone with \`git -C "$REPO" checkout -- .\`."
 echo
 echo "| seed | property | result | first failing oracle clause | cases until found |"
 echo "|---|---|---|---|---|"
@@ -19,9 +20,9 @@ missed=0
 for d in seeded/*/; do
   id="$(basename "$d")"; [ -f "$d/patch.diff" ] || continue
   prop="${id%%-*}"; prop="${prop%%b}"
-  git -C /repo apply "$(readlink -f "$d/patch.diff")" || { echo "| $id | $prop | PATCH DOES NOT APPLY | | |" >> "$OUT"; continue; }
+  git -C "$REPO" apply "$(readlink -f "$d/patch.diff")" || { echo "| $id | $prop | PATCH DOES NOT APPLY | | |" >> "$OUT"; continue; }
   out="$(./check "$prop" "$TIER" 2>&1)"; rc=$?
-  git -C /repo checkout -- .
+  git -C "$REPO" checkout -- .
   clause="$(echo "$out" | grep -E "^\s+\[|^violation of|crash confirmed" | head -1 | sed 's/|/\\|/g' | cut -c1-160)"
   evals="$(echo "$out" | grep -oE "evaluations=[0-9]+" | head -1)"
   if [ $rc -eq 1 ]; then
